@@ -59,37 +59,49 @@ StripLeft0(d) == IF d # <<>> /\ d[1] = 0 THEN StripLeft0(Tail(d)) ELSE d
 (* A tree object is a sequence of entries                                  *)
 (*       mode SP name NUL id                                               *)
 (* mode = one or more octal digits (git's get_mode: nothing else, no sign, *)
-(* no separator, no white space), value must fit an unsigned 32-bit mode;  *)
+(* no separator, no white space), value must fit an unsigned 32-bit mode.  *)
+(* One shared leniency of dulwich is part of the reference (PlusLenient):  *)
+(* both implementations take an integer parser off the shelf (int(s, 8),   *)
+(* u32::from_str_radix) and both of those accept ONE leading '+'; git does *)
+(* not, but that is no business of an equivalence property.                *)
 (* name = the bytes up to the next NUL (the empty name parses; fsck, not   *)
 (* the parser, refuses it); id = exactly shaLen raw bytes.  strict refuses *)
 (* a mode that starts with 0.  The result is                               *)
-(*    <<"ok",  "",  0,   <<entry...>>>>   entry = <<modeDigits, name, id>> *)
-(*    <<"err", why, pos, <<>>>>           pos = 0-based offset of the      *)
-(*                                        entry that does not parse        *)
+(*    <<"ok",  "",  0,   <<entry...>>, plus>>                              *)
+(*                                entry = <<modeDigits, name, id>>;        *)
+(*                                plus = 1: some mode used the leniency    *)
+(*                                (failing is then equally acceptable)     *)
+(*    <<"err", why, pos, <<>>, 0>>    pos = 0-based offset of the entry    *)
+(*                                    that does not parse                  *)
 (***************************************************************************)
 IsOct(c) == c >= 48 /\ c <= 55
+PlusLenient == TRUE
+ModeDigitsOf(m) == IF PlusLenient /\ m # <<>> /\ m[1] = 43 THEN Tail(m) ELSE m
 Fits32(d) == Len(d) <= 10 \/ (Len(d) = 11 /\ d[1] <= 3)        \* < 2^32 = 0o40000000000
-PErr(why, i) == <<"err", why, i - 1, <<>>>>
+PErr(why, i) == <<"err", why, i - 1, <<>>, 0>>
 
-RECURSIVE ParseFrom(_, _, _, _, _)
-ParseFrom(t, i, shaLen, strict, acc) ==
-    IF i > Len(t) THEN <<"ok", "", 0, acc>>
+RECURSIVE ParseFrom(_, _, _, _, _, _)
+ParseFrom(t, i, shaLen, strict, acc, plus) ==
+    IF i > Len(t) THEN <<"ok", "", 0, acc, plus>>
     ELSE LET sp == FindByte(t, 32, i) IN
          IF sp = 0 THEN PErr("no-space", i)
          ELSE LET m == SubSeq(t, i, sp - 1) IN
-              IF m = <<>> THEN PErr("mode-empty", i)
-              ELSE IF \E k \in DOMAIN m : ~IsOct(m[k]) THEN PErr("mode-char", i)
+              IF ModeDigitsOf(m) = <<>> THEN PErr("mode-empty", i)
+              ELSE IF \E k \in DOMAIN ModeDigitsOf(m) : ~IsOct(ModeDigitsOf(m)[k]) THEN PErr("mode-char", i)
               ELSE IF strict /\ m[1] = 48 THEN PErr("mode-leading-zero", i)
-              ELSE LET dg == StripLeft0([k \in DOMAIN m |-> m[k] - 48]) IN
+              ELSE LET dg == StripLeft0([k \in DOMAIN ModeDigitsOf(m) |-> ModeDigitsOf(m)[k] - 48]) IN
                    IF ~Fits32(dg) THEN PErr("mode-overflow", i)
                    ELSE LET nul == FindByte(t, 0, sp + 1) IN
                         IF nul = 0 THEN PErr("no-nul", i)
                         ELSE IF nul + shaLen > Len(t) THEN PErr("id-truncated", i)
                         ELSE ParseFrom(t, nul + shaLen + 1, shaLen, strict,
                                        Append(acc, <<dg, SubSeq(t, sp + 1, nul - 1),
-                                                     SubSeq(t, nul + 1, nul + shaLen)>>))
+                                                     SubSeq(t, nul + 1, nul + shaLen)>>),
+                                       IF m[1] = 43 THEN 1 ELSE plus)
 
-ParseTree(text, shaLen, strict) == ParseFrom(text, 1, shaLen, strict, <<>>)
+ParseTree(text, shaLen, strict) == ParseFrom(text, 1, shaLen, strict, <<>>, 0)
+\* obs = <<"v", entries>> | <<"f">>
+ParseAllowed(r, obs) == (r[1] = "ok" /\ obs = <<"v", r[4]>>) \/ (obs = <<"f">> /\ (r[1] = "err" \/ r[5] = 1))
 
 \* serialisation of parsed entries (modes without leading zeros): the inverse on canonical input
 RECURSIVE Serialize(_)
@@ -98,10 +110,10 @@ Serialize(ents) ==
     ELSE LET e == ents[1] IN
          [k \in DOMAIN e[1] |-> e[1][k] + 48] \o <<32>> \o e[2] \o <<0>> \o e[3] \o Serialize(Tail(ents))
 
-\* lemma: what parses with strict and without zero modes re-serialises to the same bytes
+\* lemma: what parses with strict, without zero modes and without '+' re-serialises to the same bytes
 ParseSerializeLemma(text, shaLen) ==
     LET r == ParseTree(text, shaLen, TRUE) IN
-    (r[1] = "ok" /\ \A k \in DOMAIN r[4] : r[4][k][1] # <<>>) => Serialize(r[4]) = text
+    (r[1] = "ok" /\ 43 \notin Range(text) /\ \A k \in DOMAIN r[4] : r[4][k][1] # <<>>) => Serialize(r[4]) = text
 
 \* ------------------------------------------------------------------ tree order
 \* an item is <<name, modeTag>>, modeTag as in TreeDiff ("T" = directory).
@@ -115,6 +127,22 @@ SortItems(items, nameOrder) ==
 \* whenever no name contains '/' or NUL
 OrderLemma(a, b) ==
     (TD!BaseNameCompare(a[1], a[2] = "T", b[1], b[2] = "T") = "lt") <=> TD!GitLess(ItemRec(a), ItemRec(b))
+
+\* ------------------------------------------------------------------ delta decoding
+(* Delta!Run is git's patch_delta (the strict reference); Delta!Cand is    *)
+(* the one output C03's postcondition admits (declared length, slices of   *)
+(* the base and literal inserts only).  A decoder is inside its contract   *)
+(* when it fails or returns that output; the strict verdict says which of  *)
+(* two decoders that differ deviates from git.                             *)
+(*    <<st, why, out, chas, cout>>                                         *)
+(***************************************************************************)
+DeltaJudge(base, s) ==
+    LET r == D!Run(Len(base), s)
+        c == D!Cand(Len(base), s)
+    IN <<r.st, r.why, IF r.st = "ok" THEN D!Mat(base, s, r.segs) ELSE <<>>,
+         IF c.has THEN 1 ELSE 0, IF c.has THEN D!Mat(base, s, c.segs) ELSE <<>>>>
+\* obs = <<"v", bytes>> | <<"f">>
+DeltaAllowed(j, obs) == obs[1] = "f" \/ (j[4] = 1 /\ obs = <<"v", j[5]>>)
 
 \* ------------------------------------------------------------------ bisection
 (* bisect_find_sha(start, end, sha, unpack_name): the ids unpack_name(i),  *)
@@ -149,10 +177,11 @@ FindLemma(table, lo, hi, key) ==
         /\ r[1] = "none" => \A i \in lo..hi : table[i + 1] # key
 
 \* ------------------------------------------------------------------ merging tree entries
-\* a tree is a sequence of <<name, modeTag, id>> (any order, distinct names) or <<"none">>;
-\* the result pairs entries by name in name order; <<>> = no entry on that side
-TreeRecs(t) == IF t = <<"none">> THEN <<>>
-               ELSE [k \in DOMAIN t |-> [name |-> t[k][1], mode |-> t[k][2], id |-> t[k][3], sub |-> <<>>]]
+\* a tree argument is <<1, entries>>, entries a sequence of <<name, modeTag, id>> (any order,
+\* distinct names), or <<0, <<>>>> (None); the result pairs entries by name in name order;
+\* <<>> = no entry on that side
+TreeRecs(t) == IF t[1] = 0 THEN <<>>
+               ELSE [k \in DOMAIN t[2] |-> [name |-> t[2][k][1], mode |-> t[2][k][2], id |-> t[2][k][3], sub |-> <<>>]]
 EntT(e) == IF e = TD!NoEntry THEN <<>> ELSE <<e.path[Len(e.path)], e.mode, e.id>>
 MergeEntries(t1, t2) ==
     LET m == TD!Merge(<<>>, TreeRecs(t1), TreeRecs(t2)) IN
@@ -161,8 +190,8 @@ MergeEntries(t1, t2) ==
 NameOfPair(p) == IF p[1] # <<>> THEN p[1][1] ELSE p[2][1]
 MergeLemma(t1, t2) ==
     LET m == MergeEntries(t1, t2)
-        s1 == IF t1 = <<"none">> THEN {} ELSE Range(t1)
-        s2 == IF t2 = <<"none">> THEN {} ELSE Range(t2)
+        s1 == Range(t1[2])
+        s2 == Range(t2[2])
     IN /\ {m[k][1] : k \in DOMAIN m} \ {<<>>} = s1
        /\ {m[k][2] : k \in DOMAIN m} \ {<<>>} = s2
        /\ \A k \in 1..(Len(m) - 1) : TD!LexLess(NameOfPair(m[k]), NameOfPair(m[k + 1]))
